@@ -36,6 +36,25 @@ def env11(it, finite_of=None):
     lib["equinox.error_if"] = error_if
 
 
+def _consts(e, seen=None):
+    """uninterpreted constants of a term"""
+    seen = set() if seen is None else seen
+    out = set()
+    stack = [e]
+    while stack:
+        t = stack.pop()
+        if t.get_id() in seen:
+            continue
+        seen.add(t.get_id())
+        if z3.is_app(t):
+            if t.num_args() == 0 and t.decl().kind() == z3.Z3_OP_UNINTERPRETED:
+                out.add(t)
+            stack.extend(t.children())
+        elif z3.is_quantifier(t):
+            stack.append(t.body())
+    return out
+
+
 def defined_and(sides, start=0):
     """in the real model a value is finite iff every partial primitive of its computation was applied inside its domain"""
     conds = [c for (k, _g, c, _n, _w) in sides[start:] if k in ("log", "div", "sqrt", "arctanh")]
@@ -92,7 +111,7 @@ def bijection_reparam(ctx):
         ctx.control("C11/BijectionReparam.unwrap/control/at_least_one", lift(pu[0].value) >= 1, pu[0].cond, props, fn=f"{W}.BijectionReparam.unwrap")
 
 
-@family("params11/Affine_Scale_constructors", ["C11", "C05", "C07", "C02"])
+@family("params11/Affine_Scale_constructors", ["C11", "C05", "C07", "C02", "C14"])
 def affine_scale_ctor(ctx):
     it = ctx.interp
     env11(it)
@@ -133,6 +152,25 @@ def affine_scale_ctor(ctx):
                     ctx.oblige(f"C11/{cname}.__init__/post/reproduces_scale#{i}", lift(pu[0].value) == scale.e, p.cond + pu[0].cond, props, fn=fnq, replay=rp, rounds=3, extra_terms=[exp(lift(pu[0].value)), exp(scale.e)])
             if cname == "Affine":
                 ctx.oblige(f"C11/Affine.__init__/post/reproduces_loc#{i}", lift(o.loc) == loc.e, p.cond, props, fn=fnq, replay=rp)
+            # every array that determines the behaviour is a pytree leaf: with all array leaves replaced (training / loading saved leaves
+            # into a fresh model) the unwrapped parameters no longer mention the constructor arguments (C14)
+            cnt_ = [0]
+
+            def fresh_leaf(x_):
+                if isinstance(x_, SV) and x_.e.sort() == R:
+                    cnt_[0] += 1
+                    return SV(z3.Real(f"loaded_leaf_{cname}_{cnt_[0]}"), x_.elem, x_.tags)
+                return x_
+
+            from fjvc.lib import tree_map as _tm
+            loaded = _tm(fresh_leaf, o)
+            unwrap_ = it.repo_function("flowjax.wrappers.unwrap")
+            pl_ = [q for q in it.explore(lambda loaded=loaded: unwrap_(loaded)) if q.outcome == "return"]
+            if len(pl_) == 1:
+                terms = [lift(v_) for v_ in (getattr(pl_[0].value, "loc", None), getattr(pl_[0].value, "scale", None)) if isinstance(v_, SV)]
+                left = sorted({str(c_) for t_ in terms for c_ in _consts(t_)} & {"loc", "scale"})
+                ctx.oblige(f"C14/{cname}.__init__/post/no_constructor_array_outlives_its_leaves#{i}", not left and cnt_[0] >= 1, [], props + ["C14"], kind="struct", fn=fnq, replay=dict(kind="c14", cls=cname, vars={}),
+                           note=f"constructor argument(s) {left} survive the replacement of every array leaf" if left else None)
     # loc and scale broadcast against each other: a scalar scale with a vector loc (and vice versa).  Every stored parameter must
     # have the bijection's full shape, otherwise the log-determinant (a sum over the stored scale) counts too few elements
     cls = it.repo_class("flowjax.bijections.affine.Affine")
